@@ -70,7 +70,7 @@ def build_calls(tmpdir):
     # a parsed-schema object created earlier in the history (or now) and reused
     add("write_shared_P1", lambda: {"datum": copy.deepcopy(D_A1b)},
         lambda fa, a, sh: _sl(fa, sh.setdefault("P1", fa.parse_schema(copy.deepcopy(S_A1))), a["datum"]))
-    add("write_strict_A1", lambda: {"schema": copy.deepcopy(S_A1), "datum": dict(copy.deepcopy(D_A1b), q=None)},
+    add("write_strict_A1", lambda: {"schema": copy.deepcopy(S_A1), "datum": dict(copy.deepcopy(D_A1b), q=None, grid=[[5]], mm={"a": []})},
         lambda fa, a, sh: _sl(fa, a["schema"], a["datum"], strict=True))
     add("write_strict_A2_extra", lambda: {"schema": copy.deepcopy(S_A2), "datum": dict(copy.deepcopy(D_A2), id=1)},
         lambda fa, a, sh: _sl(fa, a["schema"], a["datum"], strict=True))
@@ -167,6 +167,42 @@ def build_calls(tmpdir):
     def dec(fa, a, sh):
         data = _sl(fa, a["schema"], a["value"])
         return fa.schemaless_reader(io.BytesIO(data), a["schema"])
+    def dec_excess(fa, a, sh):
+        # a stored decimal with more digits than the annotation's precision (bytes written by another writer): rounded to the precision
+        data = _sl(fa, "bytes", a["raw"])
+        return fa.schemaless_reader(io.BytesIO(data), a["schema"])
+    add("decimal_excess_digits_p5", lambda: {"schema": copy.deepcopy(S_DEC5), "raw": (1234567).to_bytes(3, "big", signed=True)}, dec_excess)
+
+    def override_alternating(fa, a, sh):
+        # readers of two files whose unions hold different numbers of record branches, created and discarded in turn, with the
+        # *_override options: every round must give what the first round gave
+        files = []
+        for sch, recs in ((a["s2"], a["r2"]), (a["s1"], a["r1"])):
+            fo = io.BytesIO()
+            fa.writer(fo, sch, recs, sync_marker=b"0123456789abcdef")
+            files.append(fo.getvalue())
+        def rd(data, **kw):
+            return list(fa.reader(io.BytesIO(data), **kw))
+        # what the override options mean: s2's union has two record branches (pairs stay), s1's has one record and two named types
+        want = [rd(files[0], return_record_name=True), rd(files[0], return_named_type=True), rd(files[1]), rd(files[1], return_named_type=True)]
+        first = None
+        same = True
+        for _ in range(a["rounds"]):
+            out = []
+            for data in files:
+                out.append(rd(data, return_record_name=True, return_record_name_override=True))
+                out.append(rd(data, return_named_type=True, return_named_type_override=True))
+            if first is None:
+                first = out
+            if out != want:
+                same = False
+        return {"first": first, "__must__": same}
+    U2 = {"type": "record", "name": "ns.Two", "fields": [{"name": "u", "type": ["null", {"type": "record", "name": "A", "fields": [{"name": "x", "type": "int"}]},
+                                                                              {"type": "record", "name": "B", "fields": [{"name": "x", "type": "int"}]}]}]}
+    U1 = {"type": "record", "name": "ns.One", "fields": [{"name": "u", "type": ["null", {"type": "record", "name": "A", "fields": [{"name": "x", "type": "int"}]},
+                                                                              {"type": "enum", "name": "E", "symbols": ["S"]}]}]}
+    add("override_alternating_readers", lambda: {"s1": copy.deepcopy(U1), "r1": [{"u": {"x": 1}}, {"u": "S"}, {"u": None}],
+                                                 "s2": copy.deepcopy(U2), "r2": [{"u": ("ns.B", {"x": 2})}, {"u": {"x": 3}}], "rounds": 25}, override_alternating)
     add("decimal_p5", lambda: {"schema": copy.deepcopy(S_DEC5), "value": decimal.Decimal("123.45")}, dec)
     add("decimal_p20", lambda: {"schema": copy.deepcopy(S_DEC20), "value": decimal.Decimal("123456789012345678.91")}, dec)
 
@@ -256,6 +292,11 @@ def run_c17(ctx, fa0):
         for nm in names:
             fa = fresh_library(ctx.repo)
             fresh[nm] = run_call(fa, calls, nm, {})[0]
+        # calls meant to fail fail, all others succeed in a fresh library (a call that always fails exercises nothing)
+        meant_to_fail = {"parse_bad", "read_dangling_ref", "write_strict_A2_extra"}
+        for nm in names:
+            if fresh[nm]["ok"] == (nm in meant_to_fail):
+                ctx.machinery.append("call %s %s in a fresh library" % (nm, "succeeds" if fresh[nm]["ok"] else "fails: %s" % fresh[nm].get("exc", [""])[0]))
         rnd = ctx.sub_rnd("c17")
         hist = [list(h) for h in itertools.product(names, repeat=2)]
         nrand = 150 if ctx.quick() else 3000
